@@ -4,6 +4,7 @@ documented bit layout; out-of-range fields are refused with ValueError.
 Helper lemmas first, property theorems (listed in harness/props/c06.py) after.
 -/
 import PydlVerif.Model.Ids
+import Std.Data.String.ToNat
 namespace PydlVerif.C06
 open PydlVerif.Ids
 
@@ -198,6 +199,61 @@ theorem run2d_nmp_rejects (n m p : Nat) (h : n < 5 ∨ 6 < n ∨ 99 < m ∨ 99 <
 theorem run2d_nmp_injective (n m p n' m' p' r : Nat) (h : run2dOfNMP n m p = .ok r)
     (h' : run2dOfNMP n' m' p' = .ok r) : (n, m, p) = (n', m', p') := by
   rw [← (run2d_nmp_roundtrip _ _ _ _ h).1, ← (run2d_nmp_roundtrip _ _ _ _ h').1]
+
+/-! ### text level -/
+
+
+theorem span_digits (l r : List Char) (hl : ∀ c ∈ l, c.isDigit = true)
+    (hr : ∀ c, r.head? = some c → c.isDigit = false) : spanDigits (l ++ r) = (l, r) := by
+  unfold spanDigits
+  have h1 : ∀ c ∈ l, isDigit c = true := hl
+  rw [List.takeWhile_append_of_pos h1, List.dropWhile_append_of_pos h1]
+  cases r with
+  | nil => simp
+  | cons c r =>
+    have : isDigit c = false := hr c rfl
+    simp [this]
+
+theorem fmt_toList (r : Nat) : (fmtRun2d r).toList =
+    'v' :: (Nat.toDigits 10 (r / 10000 + 5) ++ '_' :: (Nat.toDigits 10 (r % 10000 / 100) ++ '_' :: Nat.toDigits 10 (r % 100))) := by
+  simp [fmtRun2d, nmpOfRun2d, toString, Nat.toList_repr]
+
+theorem digits_all (n : Nat) : ∀ c ∈ Nat.toDigits 10 n, c.isDigit = true :=
+  fun _ hc => Nat.isDigit_of_mem_toDigits (by decide) (by decide) hc
+
+/-- text level: the 'vN_M_P' string rebuilt by the unpacker parses back to the same run2d number -/
+theorem parse_fmt_run2d (r : Nat) (h : r < 20000) : parseRun2d (fmtRun2d r) = .ok r := by
+  unfold parseRun2d
+  rw [fmt_toList]
+  have hv : isDigit 'v' = false := by decide
+  simp only [List.isEmpty_cons, Bool.not_false, List.all_cons, hv, Bool.false_and, Bool.true_and]
+  have hu : ∀ c, ('_' :: (Nat.toDigits 10 (r % 10000 / 100) ++ '_' :: Nat.toDigits 10 (r % 100))).head? = some c → c.isDigit = false := by
+    intro c hc; simp at hc; subst hc; decide
+  have hu2 : ∀ c, ('_' :: Nat.toDigits 10 (r % 100)).head? = some c → c.isDigit = false := by
+    intro c hc; simp at hc; subst hc; decide
+  have hn : ∀ c, ([] : List Char).head? = some c → c.isDigit = false := by intro c hc; simp at hc
+  have s3 := span_digits (Nat.toDigits 10 (r % 100)) [] (digits_all _) hn
+  simp only [List.append_nil] at s3
+  simp only [matchVNMP, span_digits _ _ (digits_all _) hu, span_digits _ _ (digits_all _) hu2, s3,
+    List.isEmpty_iff, Nat.toDigits_ne_nil, if_false, digitsVal, Nat.ofDigitChars_ten_toDigits, Bool.false_eq_true]
+  simp only [run2dOfNMP]
+  rw [if_pos (by simp only [Bool.and_eq_true, decide_eq_true_eq]; omega)]
+  simp only [pure, Except.pure]
+  congr 1; omega
+
+/-- text level: the integer form of run2d given as a decimal string -/
+theorem parse_digits_run2d (r : Nat) : parseRun2d (toString r) = .ok r := by
+  unfold parseRun2d
+  have e : (toString r).toList = Nat.toDigits 10 r := by simp [toString, Nat.toList_repr]
+  rw [e]
+  have h1 : (Nat.toDigits 10 r).isEmpty = false := by simp [List.isEmpty_iff, Nat.toDigits_ne_nil]
+  have h2 : (Nat.toDigits 10 r).all isDigit = true := by
+    rw [List.all_eq_true]; exact digits_all r
+  simp [h1, h2, digitsVal, pure, Except.pure]
+
+/-- IDs given as decimal strings denote the same number -/
+theorem dec_string_id (v : Nat) : (toString v).toNat? = some v := by
+  simpa [toString] using Nat.toNat?_repr v
 
 /-! non-vacuity: the documentation's own examples meet the hypotheses -/
 example : (ObjF.mk 2 301 3704 3 0 91 146).ok = true := by decide
